@@ -13,13 +13,13 @@ import (
 // (a pooled buffer handed back dirty doubles it every time) and allocate gigabytes INSIDE one
 // call, where the runaway guard of Exec cannot see it.  The watchdog ends the process with
 // exit status 3 and a message naming the operation in flight once the Go heap passes the
-// limit (VERIF_HEAP_LIMIT_MB, default 12288), instead of letting the machine run out of
+// limit (VERIF_HEAP_LIMIT_MB, default 24576), instead of letting the machine run out of
 // memory.  It starts in this package's init, which runs before the init of every package
 // that builds Files (props measures its path pool at init time).
 var inFlight atomic.Value // func() string: describes the operation being executed
 
 func init() {
-	limit := uint64(12288)
+	limit := uint64(24576)
 	if v, err := strconv.ParseUint(os.Getenv("VERIF_HEAP_LIMIT_MB"), 10, 64); err == nil && v > 0 {
 		limit = v
 	}
